@@ -311,7 +311,7 @@ def gen_session(rng, texts):
             if m["method"] == "shutdown":
                 continue
             add(m, "unknown-or-idless-notification", "none")
-        elif k < 0.87:
+        elif k < 0.86:
             # a request whose method is a notification name: still a request, needs its one answer
             meth = rng.choice(["initialized", "textDocument/didClose", "textDocument/didOpen", "textDocument/didChange"])
             i = next_id()
@@ -320,26 +320,33 @@ def gen_session(rng, texts):
         elif k < 0.91:
             # unclassifiable / malformed envelopes
             c = rng.random()
-            if c < 0.25:
+            if c < 0.2:
                 i = next_id()
                 m = {"id": i, "method": rng.choice(ALL_REQ)}      # no jsonrpc member: an invalid request, has an id
                 add(m, "no-jsonrpc-member", "one", i)
-            elif c < 0.4:
+            elif c < 0.32:
                 i = next_id()
                 meth = rng.choice([5, None, [], {"a": 1}, True])
                 # `"method": null` reads as "no method" (a response from the client): unclassifiable, like an absent one
                 add({"jsonrpc": "2.0", "id": i, "method": meth}, "method-not-a-string" if meth is not None else "method-null",
                     "one" if meth is not None else "any", i)
-            elif c < 0.55:
+            elif c < 0.44:
                 add({"jsonrpc": "2.0", "id": rng.choice([None, True, 1.5, [1], {"x": 1}]), "method": rng.choice(ALL_REQ + ["foo"]),
                      "params": {}}, "odd-id", "any")
-            elif c < 0.7:
+            elif c < 0.56:
                 add({"jsonrpc": "2.0", "id": next_id(), "result": None}, "client-response", "any")
-            elif c < 0.8:
+            elif c < 0.64:
                 add(rng.choice([[], [1, 2], 5, "str", None, True, [{"jsonrpc": "2.0", "id": 99, "method": "foo"}]]), "non-object-json", "none")
-            elif c < 0.9:
+            elif c < 0.93:
+                # bodies that are not JSON; several fail EARLY in the body and have a long tail, so a reader that stops
+                # at the first syntax error instead of consuming Content-Length bytes loses the framing
+                tail = ", \"params\": {\"textDocument\": {\"uri\": \"file://@ROOT@/ws/x.gdn\"}, \"position\": {\"line\": 0, \"character\": 0}}}"
                 add(None, "non-json-body", "none", raw=rng.choice(["", "{", "[1,2", "﻿{}", "{\"jsonrpc\": \"2.0\", \"id\": 1, ",
-                                                                   "nul\u0000l", "{'a': 1}", "Content-Length: 5", "\r\n"]))
+                                                                   "nul\u0000l", "{'a': 1}", "Content-Length: 5", "\r\n",
+                                                                   "{\"jsonrpc\": \"2.0\", \"id\": 1, \"method\": " + tail,
+                                                                   "{\"jsonrpc\": \"2.0\",, \"id\": 1, \"method\": \"shutdown\"" + tail,
+                                                                   "{\"a\": 1,}" + " " * 40, "[1, 2,]" + tail, "}{" + tail,
+                                                                   "{\"jsonrpc\": 2.0.0, \"id\": 3" + tail, "x" * 300]))
             else:
                 i = next_id()
                 add({"jsonrpc": "1.0", "id": i, "method": "textDocument/hover", "params": {}, "extra": {"deep": [1, 2, 3]}},
@@ -449,7 +456,7 @@ def _uri_path(uri):
     return urllib.parse.unquote(uri[len("file://"):])
 
 
-def run_session(case, timeout=45.0):
+def run_session(case, timeout=25.0):
     """-> result dict for the framework."""
     with core.Scratch("gm-c28-") as sc:
         root = sc.dir
@@ -702,7 +709,7 @@ def run_batch(cases):
         r = run_session(c)
         if r["status"] == "inconclusive" and "timeout_at" in r:
             # a real hang never answers: look again, alone, with a much larger budget
-            r2 = run_session(c, timeout=150.0)
+            r2 = run_session(c, timeout=100.0)
             if r2["status"] == "inconclusive" and "timeout_at" in r2:
                 d = r2["detail"]
                 r = {"status": "violated", "key": "violated:hang", "sig": "no-answer:" + _tagclass(d.get("tag", "?")), "detail": d}
